@@ -1,6 +1,7 @@
 package checks
 
 import (
+	"crypto/md5"
 	"fmt"
 	"math/rand"
 	"os"
@@ -86,6 +87,24 @@ func (c *c06) Run(cs core.Case) core.Result {
 	}
 	ref := par2rw.BuildSet(set.SliceSize, in)
 	total := set.TotalSlices()
+	// A quarter of the sets also describe files that are NOT protected (the
+	// non-recovery set of the main packet), more of them than protected files;
+	// they are present and intact, described by their own packets.
+	var nonRecPk []par2rw.Packet
+	var nonRecFiles []par2rw.InFile
+	if p.Seed%4 == 2 && p.Fixed == "" {
+		for k := 0; k < len(in)+1+rng.Intn(3); k++ {
+			nonRecFiles = append(nonRecFiles, par2rw.InFile{Name: fmt.Sprintf("described-only-%d.txt", k), Data: scen.Garbage(rng, 1+rng.Intn(3*set.SliceSize))})
+		}
+		extra := par2rw.BuildSet(set.SliceSize, nonRecFiles)
+		ref.Main.IDs = append(ref.Main.IDs, extra.Main.IDs...)
+		ref.SetID = md5.Sum(ref.Main.Body())
+		for i := range extra.Files {
+			d, c := extra.DescPacket(i), extra.IFSCPacket(i)
+			d.SetID, c.SetID = ref.SetID, ref.SetID
+			nonRecPk = append(nonRecPk, d, c)
+		}
+	}
 
 	root, err := os.MkdirTemp("", "c06-")
 	if err != nil {
@@ -95,6 +114,9 @@ func (c *c06) Run(cs core.Case) core.Result {
 	defer os.RemoveAll(root)
 	dir := filepath.Join(root, "d[1] x")
 	paths, _ := set.Materialize(dir)
+	for _, f := range nonRecFiles {
+		os.WriteFile(filepath.Join(dir, f.Name), f.Data, 0644)
+	}
 
 	base := c06Bases[rng.Intn(len(c06Bases))]
 	nVolFiles := 1 + rng.Intn(6)
@@ -149,6 +171,10 @@ func (c *c06) Run(cs core.Case) core.Result {
 	idxPk := []par2rw.Packet{ref.MainPacket()}
 	idxPk = append(idxPk, ref.Critical()[1:]...)
 	idxPk = append(idxPk, ref.CreatorPacket("verif reference writer"))
+	idxPk = append(idxPk, nonRecPk...)
+	if len(nonRecPk) > 0 {
+		features["non-recovery-set"] = true
+	}
 	rng.Shuffle(len(idxPk), func(i, j int) { idxPk[i], idxPk[j] = idxPk[j], idxPk[i] })
 	if rng.Intn(2) == 0 {
 		features["dup-in-index"] = true
